@@ -371,6 +371,8 @@ class Judge:
             return None
         _, allowed, must = G.modify_lines(k, blk["val"])
         old = self.memo[int(p[2])][2]
+        if k in ("pp", "ss") and not any(re.match(r"-component\s+Calcite$", ln.strip()) for ln in old):
+            return None      # the named component does not exist in this (empty, mixed from nothing) entity: MODIFY adds it
         self.stats["mod_checked"] += 1
         if not any(re.match(must, ln.strip()) for ln in lines):
             return f"{k} {n} after {G.KW[k]}_MODIFY does not show the new value ({must})"
